@@ -128,7 +128,7 @@ def gen_project(rnd, n_tags=12, programs=1, junk=True, big_tags=None, iid_base=N
     inner = b.udt("Inner", [("x", atomic(0xC3), 0), ("f0", atomic(0xC1), 0), ("f1", atomic(0xC1), 0), ("v", atomic(0xCA), 0)])
     flat = b.udt("Flat", [("b0", atomic(0xC1), 0), ("b1", atomic(0xC1), 0), ("a", atomic(0xC3), 0), ("c", atomic(0xC4), 2),
                           ("s", atomic(0xC2), 3), ("b2", atomic(0xC1), 0), ("l", atomic(0xC5), 0), ("d", atomic(0xCB), 0)])
-    nine = b.udt("Nine", [("q%d" % i, atomic(0xC1), 0) for i in range(9)] + [("w", atomic(0xC7), 0)])
+    nine = b.udt("Nine", [("q%d" % i, atomic(0xC1), 0) for i in range(9)] + [("w", atomic(0xC7), 0), ("Control", atomic(0xC3), 0), ("CTL", atomic(0xC2), 0)])   # names that are hidden in predefined types only
     in12 = b.udt("In12", [("x", atomic(0xC3), 0), ("v", atomic(0xCA), 0), ("d", atomic(0xC4), 0)])          # 12 bytes, no BOOLs
     outer = b.udt("Outer", [("id", atomic(0xC4), 0), ("in1", inner, 0), ("arr", inner, 3), ("name", strs[1], 0), ("flags", atomic(0xD3), 2),
                             ("ok", atomic(0xC1), 0)])
@@ -173,7 +173,10 @@ def gen_project(rnd, n_tags=12, programs=1, junk=True, big_tags=None, iid_base=N
         k = rnd.randint(0, 9)
         nm = rnd.choice(["T", "Tag", "x", "Valve_Open", "M", "LongTagName_abcdefghijklmnopqrstuvwxyz_40"]) + "%d" % i
         if k <= 2:
-            add(nm, atomic(ATOMS[rnd.choice(atom_names)]), [])
+            code = ATOMS[rnd.choice(atom_names)]
+            s = add(nm, atomic(code), [])
+            if code == 0xC1 and rnd.random() < 0.6:
+                s["bitpos"] = rnd.randint(1, 7)          # a BOOL tag packed at a non-zero bit position
         elif k == 3:
             code = ATOMS[rnd.choice([a for a in atom_names if a != "BOOL"])]
             add(nm, atomic(code), [rnd.randint(1, 12)])
@@ -190,6 +193,9 @@ def gen_project(rnd, n_tags=12, programs=1, junk=True, big_tags=None, iid_base=N
             add(nm, rnd.choice([inner, flat, outer]), [rnd.randint(1, 4)])
         else:
             add(nm, rnd.choice(udts + strs), rnd.choice([[], [2]]))
+    if n_tags >= 5 and rnd.random() < 0.6:
+        for j in range(rnd.choice([1, 3])):
+            add("PackedBit%d" % j, atomic(0xC1), [])["bitpos"] = rnd.randint(1, 7)
     if huge:
         # a structure larger than 64 KiB: member offsets need all 32 bits
         huget = b.udt("Huge", [("pad", atomic(0xC4), 17000), ("flag", atomic(0xC1), 0), ("tail", atomic(0xC4), 0), ("tl", atomic(0xC3), 3)])
